@@ -2,10 +2,11 @@ import Driver.Codec
 import Driver.CmdC18
 import Driver.CmdC17
 import Driver.CmdC12
+import Driver.CmdC15
 /-
   Driver.Extra — per-property command handlers living in their own files (`Driver/CmdCxx.lean`).
   Each returns `none` for commands that are not its own.
 -/
 open Lean
 
-def extraHandlers : List (String → Json → Option (Except String Json)) := [handleC18, handleC17, handleC12]
+def extraHandlers : List (String → Json → Option (Except String Json)) := [handleC18, handleC17, handleC12, handleC15]
